@@ -32,6 +32,8 @@ def run_one(d):
 
 def main():
     dirs = sys.argv[1:] or sorted(x for x in os.listdir(SEEDED) if re.match(r"C\d\d-[A-Z]$", x))
+    superseded = [d for d in dirs if json.load(open(os.path.join(SEEDED, d, "meta.json"))).get("superseded")]
+    dirs = [d for d in dirs if d not in superseded]
     with ThreadPool(6) as pool:
         rows = pool.map(run_one, dirs)
     lines = ["# Seeded changes and the checks that catch them", "",
@@ -48,6 +50,8 @@ def main():
         needs = str(meta.get("needs_to_manifest", "")).replace("|", "/").replace("\n", " ")
         lines.append(f"| {d} | {', '.join(meta.get('files', []))} | {needs[:260]} | {demo.get('unchanged', '?')}/{demo.get('changed', '?')} | {'<br>'.join(cells)} |")
     lines += ["", f"{len(rows)} changes, {missed} missed by every check that was run against them."]
+    for d in superseded:
+        lines.append(f"Not run: {d} - superseded " + json.load(open(os.path.join(SEEDED, d, "meta.json")))["superseded"])
     if not sys.argv[1:]:
         open(os.path.join(SEEDED, "STATUS.md"), "w").write("\n".join(lines) + "\n")
     print("\n".join(lines[6:]))
